@@ -312,14 +312,11 @@ def pyDecode (b : B) (s : String) : Option Atom :=
     let t := strip s
     if t == "true" || t == "1" then some ⟨.boolean, "true"⟩
     else if t == "false" || t == "0" then some ⟨.boolean, "false"⟩ else none
-  | .decimal =>                                                    -- decimal.Decimal(s)
+  | .decimal =>                                                    -- DecimalProxy(s) (fix F20i)
+    (decOfLex? (strip s)).map fun c => ⟨.decimal, c⟩
+  | .double =>                                                     -- DoubleProxy(s) (fix F20i)
     let t := strip s
-    match decOfLex? t with
-    | some c => some ⟨.decimal, c⟩
-    | none => if isPyFinite t || isPySpecial t then some ⟨.decimal, "py:" ++ lower t⟩ else none
-  | .double =>                                                     -- float(s)
-    let t := strip s
-    if isPyFinite t || isPySpecial t then some ⟨.double, t⟩ else none
+    if isXsdDouble t then some ⟨.double, t⟩ else none
   | .date =>                                                       -- Date10/Date.fromstring(s)
     let t := strip s
     if isDateLex t then some ⟨.date, t⟩ else none
@@ -697,32 +694,31 @@ inductive TV where
   | viaSchema
   deriving Repr, DecidableEq, Inhabited
 
-/-- `for item in text.split(): yield decode(item)` for one prototype; the state is (atoms yielded so
-far, no exception yet) -/
-def tryItems (b : B) (items : List String) (st : List Atom × Bool) : List Atom × Bool :=
-  items.foldl (fun (st : List Atom × Bool) item =>
-    if st.2 then (match pyDecode b item with
-                  | some a => (st.1 ++ [a], true)
-                  | none => (st.1, false))
-    else st) st
+/-- the first prototype that accepts the literal (`for value in values: try: decode(item) … else:
+break`, decoder.py with fix F20g) -/
+def firstProto : List B → String → Option Atom
+  | [], _ => none
+  | b :: bs, s => match pyDecode b s with
+    | some a => some a
+    | none => firstProto bs s
 
-/-- one prototype: the `try` body of `get_atomic_sequence`.  Returns the atoms yielded (appended
-to what was yielded before) and whether the body completed without exception. -/
-def tryProto (isList : Bool) (text : String) (b : B) (acc : List Atom) : List Atom × Bool :=
-  if isList then tryItems b (splitWs text) (acc, true)
-  else
-    match pyDecode b text with
-    | some a => (acc ++ [a], true)
-    | none => (acc, false)
+/-- every item decoded by `firstProto`; `none` = some item is accepted by no prototype -/
+def decodeAll (bs : List B) : List String → Option (List Atom)
+  | [] => some []
+  | w :: ws => match firstProto bs w, decodeAll bs ws with
+    | some a, some r => some (a :: r)
+    | _, _ => none
 
-/-- the `for value in iter_atomic_values(xsd_type)` loop of `get_atomic_sequence`
-(decoder.py:146-170) -/
-def atomicLoop (isList : Bool) (text : String) : List B → List Atom → Bool → TV
-  | [], _, failed => if failed then .err else .viaSchema
-  | b :: bs, acc, _ =>
-    match tryProto isList text b acc with
-    | (acc', true) => .ok acc'                       -- else: return
-    | (acc', false) => atomicLoop isList text bs acc' true
+/-- the item loop of `get_atomic_sequence` (decoder.py:150-179): every literal — every item of a
+list — is decoded by the first prototype that accepts it; an item that no prototype accepts raises
+(`err`); without prototypes the answer is the schema processor's own `xsd_type.decode` -/
+def atomicLoop (isList : Bool) (text : String) (bs : List B) : TV :=
+  let items := if isList then splitWs text else [text]
+  match bs with
+  | [] => if items.isEmpty then .ok [] else .viaSchema
+  | _ => match decodeAll bs items with
+    | some vs => .ok vs
+    | none => .err
 
 /-- the simple type that decodes the content of an element/attribute of type `ty`
 (`xsd_type` itself, or `xsd_type.simple_type` of a complex type with simple content) -/
@@ -734,7 +730,7 @@ def contentType (s : Schema) : Ty → Option SType
 
 /-- `get_atomic_sequence(xsd_type, text)` for `text is not None` and a type with simple content -/
 def atomicSequence (t : SType) (text : String) : TV :=
-  atomicLoop t.isList text t.protos [] false
+  atomicLoop t.isList text t.protos
 
 def allText {α : Type} : Forest α → String
   | .nil => ""
@@ -965,6 +961,9 @@ def fsize {α : Type} : Forest α → Nat
 structure Cfg (α : Type) where
   /-- schema-bound parser AND the tree root is an element (dummy document) -/
   dropRoot : Bool
+  /-- the tree root is an element: the document item is a dummy that is nobody's parent
+  (`iter_parent`: `if self.document is not None or self.item is not self.root`) -/
+  dummy : Bool
   /-- the attribute nodes of an element: (name, value, offset of the node's position after the element) -/
   attrsOf : α → List (String × String) → List (String × String × Nat)
 
@@ -972,7 +971,7 @@ def plainAttrs (attrs : List (String × String)) : List (String × String × Nat
   attrs.zipIdx.map fun ((n, v), k) => (n, v, k)
 
 /-- schema-less evaluation -/
-def Cfg.plain : Cfg Unit := ⟨false, fun _ ats => plainAttrs ats⟩
+def Cfg.plain (dummy : Bool) : Cfg Unit := ⟨false, dummy, fun _ ats => plainAttrs ats⟩
 
 /-- the sibling list of a forest whose first node has index `start` -/
 def sibs {α : Type} (start : Nat) : Forest α → List (Item α)
@@ -1006,18 +1005,64 @@ def attributes {α : Type} (cfg : Cfg α) : Item α → List (Item α)
   | .elem i a _ ats _ => (cfg.attrsOf a ats).map fun (n, v, k) => .attr (i + 1 + k) n v
   | _ => []
 
-inductive Axis where | child | descendant | descOrSelf | self | attrib
+inductive Axis where
+  | child | descendant | descOrSelf | self | attrib
+  | parent | ancestor | follSibling | precSibling
   deriving DecidableEq, Repr, Inhabited
 
 inductive NTest where | name (n : String) | star | node
   deriving DecidableEq, Repr, Inhabited
 
-def axisNodes {α : Type} (cfg : Cfg α) : Axis → Item α → List (Item α)
+/-- does `p` have a child or attribute node with index `i`? -/
+def hasChildIdx {α : Type} (cfg : Cfg α) (i : Nat) (p : Item α) : Bool :=
+  (children p ++ attributes cfg p).any fun x => x.idx? == some i
+
+/-- `node.parent`: found from the document item `rt` (nodes are values, not pointers); the dummy
+document of an element root is nobody's parent -/
+def parentOf {α : Type} (cfg : Cfg α) (rt : Item α) (c : Item α) : Option (Item α) :=
+  match c.idx? with
+  | none => none
+  | some i =>
+    match (rt :: descendants rt).find? (hasChildIdx cfg i) with
+    | some p => if cfg.dummy && isDocB p then none else some p
+    | none => none
+where isDocB : Item α → Bool
+  | .doc _ => true
+  | _ => false
+
+/-- ancestors, nearest first (reverse axis order); `fuel` bounds the depth -/
+def ancestorsOf {α : Type} (cfg : Cfg α) (rt : Item α) : Nat → Item α → List (Item α)
+  | 0, _ => []
+  | n + 1, c => match parentOf cfg rt c with
+    | some p => p :: ancestorsOf cfg rt n p
+    | none => []
+
+def isAttrItem {α : Type} : Item α → Bool
+  | .attr _ _ _ => true
+  | _ => false
+
+def idxLt {α : Type} (a b : Item α) : Bool :=
+  match a.idx?, b.idx? with
+  | some i, some j => i < j
+  | _, _ => false
+
+/-- siblings: the other children of the parent (attributes have none) -/
+def siblings {α : Type} (cfg : Cfg α) (rt c : Item α) : List (Item α) :=
+  if isAttrItem c then [] else
+  match parentOf cfg rt c with
+  | some p => children p
+  | none => []
+
+def axisNodes {α : Type} (cfg : Cfg α) (rt : Item α) : Axis → Item α → List (Item α)
   | .child, c => children c
   | .descendant, c => descendants c
   | .descOrSelf, c => c :: descendants c
   | .self, c => [c]
   | .attrib, c => attributes cfg c
+  | .parent, c => (parentOf cfg rt c).toList
+  | .ancestor, c => ancestorsOf cfg rt (1 + (descendants rt).length) c
+  | .follSibling, c => (siblings cfg rt c).filter fun x => idxLt c x
+  | .precSibling, c => ((siblings cfg rt c).filter fun x => idxLt x c).reverse
 
 /-- name test / `*` / `node()`: reads kind and name of the node, never its annotation -/
 def testOk {α : Type} : Axis → NTest → Item α → Bool
@@ -1034,9 +1079,9 @@ def isDoc {α : Type} : Item α → Bool
   | _ => false
 
 /-- one step from one context node -/
-def stepNodes {α : Type} (cfg : Cfg α) (ax : Axis) (t : NTest) (c : Item α) : List (Item α) :=
+def stepNodes {α : Type} (cfg : Cfg α) (rt : Item α) (ax : Axis) (t : NTest) (c : Item α) : List (Item α) :=
   if cfg.dropRoot && ax == .child && t == .star && isDoc c then []       -- F20b
-  else (axisNodes cfg ax c).filter (testOk ax t)
+  else (axisNodes cfg rt ax c).filter (testOk ax t)
 
 /-- keep the first occurrence of every node (by index) -/
 def dedup {α : Type} : List (Item α) → List (Option Nat) → List (Item α)
@@ -1075,7 +1120,7 @@ def eval {α : Type} (cfg : Cfg α) (rt : Item α) : E → Item α → Nat → N
   | .step p ax t q1 q2, c, pos, size =>
     let ctxs := (eval cfg rt p c pos size).1
     let out := ctxs.flatMap fun c' =>
-      let cand := stepNodes cfg ax t c'
+      let cand := stepNodes cfg rt ax t c'
       let cand1 := filterPos (fun it i n => (eval cfg rt q1 it i n).2) cand
       filterPos (fun it i n => (eval cfg rt q2 it i n).2) cand1
     let out := dedup out []
@@ -1135,6 +1180,6 @@ def typedAttrs (s : Schema) (a : Ann) (attrs : List (String × String)) : List (
 
 /-- schema-aware evaluation: parser bound to the schema proxy; `dummyDoc` = the tree was passed as
 an element (not as a document) -/
-def Sel.Cfg.typed (s : Schema) (dummyDoc : Bool) : Sel.Cfg Ann := ⟨dummyDoc, typedAttrs s⟩
+def Sel.Cfg.typed (s : Schema) (dummyDoc : Bool) : Sel.Cfg Ann := ⟨dummyDoc, dummyDoc, typedAttrs s⟩
 
 end EPV.Xsd
